@@ -12,6 +12,7 @@ import (
 	"sort"
 	"strings"
 	"sync"
+	"sync/atomic"
 	"testing"
 	"time"
 
@@ -416,6 +417,173 @@ func runC10Bulk(c kit.Case, n, mult int) (v kit.Verdict) {
 	return v
 }
 
+// runC10DrainGate executes a behaviour that contains a successful Drain with BLOCKS of `mult`
+// real timers per model key (mult > the number of drain workers) and a drain callback that
+// blocks until released.  While the callbacks are held, the driver offers the wheel more
+// ticks than any pending delay: the specification (Wheel.tla, DrainAll) empties `pend` at the
+// Drain itself, so whatever is still pending is handed to the callback exactly once and NO
+// task fires any more, however the ticks and the slow callbacks overlap.
+func runC10DrainGate(c kit.Case, n, mult int) (v kit.Verdict) {
+	v = kit.Verdict{Case: c.Index, OK: true}
+	di := -1
+	for i, st := range c.Steps {
+		if kit.Str(st["op"]) == "drain" && kit.Str(st["err"]) == "ok" && len(kit.List(st["drained"])) > 0 {
+			di = i
+			break
+		}
+	}
+	if di < 0 {
+		return v // nothing pending at a Drain: the ordinary mode covers it
+	}
+	cw := &c10wheel{tk: newVTicker(), n: n}
+	cw.base = runtime.NumGoroutine()
+	fired := map[string]int{}
+	w, err := newTimingWheelWithClock(c10Interval, n, func(k, val any) {
+		blk := k.(string)
+		cw.mu.Lock()
+		fired[fmt.Sprintf("%s=%d", blk[:strings.IndexByte(blk, '#')], val.(int))]++
+		cw.mu.Unlock()
+	}, cw.tk)
+	if err != nil {
+		return kit.Verdict{Case: c.Index, Infra: true, Msg: err.Error()}
+	}
+	cw.w = w
+	cw.base++
+	stopped := false
+	defer func() {
+		if !stopped {
+			cw.w.Stop()
+			<-cw.tk.stopped
+		}
+		kit.WaitGoroutines(cw.base-1, 10*time.Second)
+	}()
+	takeFired := func() map[string]int {
+		cw.mu.Lock()
+		defer cw.mu.Unlock()
+		f := fired
+		fired = map[string]int{}
+		return f
+	}
+	maxd := 1
+	for i, st := range c.Steps[:di] {
+		for j, want := range kit.List(st["pre"]) {
+			select {
+			case cw.tk.c <- time.Time{}:
+			case <-time.After(10 * time.Second):
+				return kit.Verdict{Case: c.Index, Infra: true, Msg: "tick not accepted by the run loop"}
+			}
+			if err := cw.settle(); err != nil {
+				return kit.Verdict{Case: c.Index, Infra: true, Msg: err.Error()}
+			}
+			v.Steps++
+			wantc := map[string]int{}
+			for _, e := range kit.List(want) {
+				m := e.(map[string]any)
+				wantc[fmt.Sprintf("%s=%d", kit.Str(m["k"]), kit.Num(m["v"]))] = mult
+			}
+			if got := takeFired(); kit.Canon(got) != kit.Canon(wantc) {
+				v.OK, v.Step, v.Key = false, i, "C10:drain:fired-set-before-drain"
+				v.Msg = fmt.Sprintf("N=%d blocks of %d timers, step %d tick #%d: executed %s, specification %s", n, mult, i, j+1, kit.Canon(got), kit.Canon(wantc))
+				return v
+			}
+		}
+		op, k := kit.Str(st["op"]), kit.Str(st["k"])
+		dn := kit.Num(st["d"])
+		if dn > maxd {
+			maxd = dn
+		}
+		d := time.Duration(dn) * c10Interval
+		for j := 0; j < mult; j++ {
+			key := fmt.Sprintf("%s#%d", k, j)
+			switch op {
+			case "set":
+				err = cw.w.SetTimer(key, kit.Num(st["v"]), d)
+			case "move":
+				err = cw.w.MoveTimer(key, d)
+			case "remove":
+				err = cw.w.RemoveTimer(key)
+			default:
+				err = nil // argument-error probes and the like do not change the wheel
+			}
+			if err != nil {
+				return kit.Verdict{Case: c.Index, Infra: true, Msg: op + ": " + err.Error()}
+			}
+		}
+	}
+	st := c.Steps[di]
+	for range kit.List(st["pre"]) { // ticks that precede the Drain
+		select {
+		case cw.tk.c <- time.Time{}:
+		case <-time.After(10 * time.Second):
+			return kit.Verdict{Case: c.Index, Infra: true, Msg: "tick not accepted by the run loop"}
+		}
+		if err := cw.settle(); err != nil {
+			return kit.Verdict{Case: c.Index, Infra: true, Msg: err.Error()}
+		}
+		takeFired()
+	}
+	gate := make(chan struct{})
+	var entered int32
+	drained := map[string]int{}
+	if err := cw.w.Drain(func(k, val any) {
+		atomic.AddInt32(&entered, 1)
+		<-gate
+		blk := k.(string)
+		cw.mu.Lock()
+		drained[fmt.Sprintf("%s=%d", blk[:strings.IndexByte(blk, '#')], val.(int))]++
+		cw.mu.Unlock()
+	}); err != nil {
+		return kit.Verdict{Case: c.Index, Infra: true, Msg: "drain: " + err.Error()}
+	}
+	wantd := map[string]int{}
+	for _, e := range kit.List(st["drained"]) {
+		m := e.(map[string]any)
+		wantd[fmt.Sprintf("%s=%d", kit.Str(m["k"]), kit.Num(m["v"]))] = mult
+	}
+	// the drain workers are all held now (mult exceeds their number)
+	kit.WaitFor(2*time.Second, func() bool { return atomic.LoadInt32(&entered) >= 8 })
+	total := maxd + n + 1
+	var delivered int32
+	tickDone := make(chan struct{})
+	go func() {
+		defer close(tickDone)
+		for i := 0; i < total; i++ {
+			select {
+			case cw.tk.c <- time.Time{}:
+				atomic.AddInt32(&delivered, 1)
+			case <-time.After(30 * time.Second):
+				return
+			}
+		}
+	}()
+	// give the wheel the chance to take the ticks while the drain callbacks are still held
+	kit.WaitFor(20*time.Millisecond, func() bool { return atomic.LoadInt32(&delivered) == int32(total) })
+	held := atomic.LoadInt32(&delivered)
+	close(gate)
+	select {
+	case <-tickDone:
+	case <-time.After(40 * time.Second):
+		return kit.Verdict{Case: c.Index, Infra: true, Msg: "ticks after the drain were not accepted\n" + kit.Stacks()}
+	}
+	if atomic.LoadInt32(&delivered) != int32(total) {
+		return kit.Verdict{Case: c.Index, Infra: true, Msg: "ticks after the drain were not accepted"}
+	}
+	if err := cw.settle(); err != nil {
+		return kit.Verdict{Case: c.Index, Infra: true, Msg: err.Error()}
+	}
+	v.Steps += total + 1
+	cw.mu.Lock()
+	gd := kit.Canon(drained)
+	cw.mu.Unlock()
+	gf := takeFired()
+	if len(gf) != 0 || gd != kit.Canon(wantd) {
+		v.OK, v.Step, v.Key = false, di, "C10:drain:overlapped-by-ticks"
+		v.Msg = fmt.Sprintf("N=%d blocks of %d timers, Drain at step %d with its callbacks held while %d ticks were offered (%d taken before the release): handed to the callback (block=value: count) %s, specification %s; fired after the Drain %s, specification {}",
+			n, mult, di, total, held, gd, kit.Canon(wantd), kit.Canon(gf))
+	}
+	return v
+}
+
 func TestVerifC10(t *testing.T) {
 	rep, err := kit.NewReporter(kit.Env("VERIF_OUT", ""))
 	if err != nil {
@@ -425,8 +593,11 @@ func TestVerifC10(t *testing.T) {
 	n := kit.EnvInt("VERIF_SLOTS", 3)
 	gated := kit.EnvInt("VERIF_GATED", 0) == 1
 	mult := kit.EnvInt("VERIF_BULK", 0)
+	dgate := kit.EnvInt("VERIF_DRAINGATE", 0)
 	if err := kit.StreamCases(kit.Env("VERIF_CASES", ""), func(c kit.Case) error {
-		if mult > 0 {
+		if dgate > 0 {
+			rep.Put(runC10DrainGate(c, n, dgate))
+		} else if mult > 0 {
 			rep.Put(runC10Bulk(c, n, mult))
 		} else if gated {
 			rep.Put(runC10Gated(c, n))
